@@ -257,6 +257,9 @@ def remove_bordering(labeled, rsize=1, out=None, output=None):
     if out is None:
         out = im.copy()
     elif out is not im:
+        if np.may_share_memory(out, im):
+            # `out` overlaps `labeled` without being it: the copy below would change `im` under our feet
+            im = im.copy()
         out[:] = im
     for val in invalid:
         out *= (im != val)
